@@ -70,41 +70,62 @@ def literal_value(e):
     return -v if neg else v
 
 
-def stub_shape(fn):
-    """(ok, why): body = cout insertions of string literals (one containing the marker) + return -1.33"""
-    st = flat_stmts(fn.body)
-    if not st or st[-1].get('k') != 'return':
-        return False, 'does not end in a return'
-    marker = False
-    for s in st[:-1]:
-        ops = cout_chain(s)
-        if ops is None:
-            return False, 'statement at %s is not an insertion into std::cout' % (s.get('l') or '?')
-        for o in ops:
-            if o.get('k') == 'str':
-                if 'MASA ERROR' in o['v']:
-                    marker = True
-            elif o.get('k') == 'fnref' and o['q'].startswith('std::endl'):
-                pass
-            else:
-                return False, 'stub prints a non-literal operand `%s`' % show(o)
-    if not marker:
+def stub_shape(fn, prog=None, scalar='double'):
+    """(ok, why): evaluated with its helpers inlined, the stub has one path; its only effects are insertions of string
+    literals into std::cout, one of them containing the marker; it returns the literal -1.33 converted to Scalar"""
+    from .. import terms
+    if prog is None:
+        return False, 'no program'
+    E = terms.Evaluator(prog, scalar=scalar, noreturn=('masa_exit',))
+    try:
+        outs = E.run(fn)
+    except RecursionError:
+        return None, 'stub too deep'
+    paths = list(outs) + [p for p in E.trace.exit_paths if p not in outs]
+    if len(paths) != 1 or paths[0].kind != 'ret':
+        return False, 'has %d paths (or a path that does not return)' % len(paths)
+    o = paths[0]
+    text = ''
+    for e in o.events:
+        if e[0] == 'print':
+            text += e[1]
+        elif e[0] == 'print-value':
+            return False, 'stub prints a non-literal operand `%s`' % terms.fmt(e[1])[:50]
+        elif e[0] in ('write', 'write-through', 'store', 'new', 'delete', 'terminate', 'throw', 'loop', 'libcall', 'branch'):
+            return False, 'stub has another effect (%s at %s)' % (e[0], e[2])
+        elif e[0] == 'call':
+            return False, 'stub calls %s' % e[1][0]
+    if E.trace.static_locals or E.trace.globals_written:
+        return False, 'stub keeps state (%s)' % (E.trace.static_locals or list(E.trace.globals_written))[:1]
+    if 'MASA ERROR' not in text:
         return False, "no string literal containing 'MASA ERROR' is printed"
-    v = literal_value(st[-1]['e'])
-    if v != Fraction(-133, 100):
-        return False, 'returns `%s`, not the literal -1.33' % show(st[-1]['e'])
-    # the literal must convert to Scalar without going through float
-    for c in nodes(st[-1], 'cast'):
-        if c['t'] == 'float':
-            return False, 'sentinel passes through float'
-    for n in walk(fn.body):
-        if n.get('k') in ('throw', 'new', 'delete'):
-            return False, 'stub contains %s' % n['k']
-        if n.get('k') == 'bin' and n['op'].endswith('=') and n['op'] not in ('==', '!=', '<=', '>='):
-            return False, 'stub stores to `%s`' % show(n['a'])
-        if n.get('k') == 'call' and n.get('n') != 'operator<<':
-            return False, 'stub calls %s' % n.get('q')
+    if o.ret != ('neg', terms.num(Fraction(133, 100))) and o.ret != terms.num(Fraction(-133, 100)):
+        return False, 'returns `%s`, not the literal -1.33' % (terms.fmt(o.ret)[:40] if o.ret else None)
+    # the literal must be a double literal converted to Scalar (not float, not a long double literal)
+    for r in nodes(fn.body, 'return'):
+        pass
+    lits = [n for f_ in [fn] + [g for g in _callees(prog, fn)] for n in walk(f_.body) if n.get('k') == 'float' and n.get('sp', '').rstrip('fFlL').lstrip('-') in ('1.33',)]
+    for n in lits:
+        if n.get('t') != 'double':
+            return False, 'the sentinel literal %s has type %s, not double' % (n.get('sp'), n.get('t'))
+    for f_ in [fn] + _callees(prog, fn):
+        for c in nodes(f_.body, 'cast'):
+            if c.get('t') == 'float':
+                return False, 'sentinel passes through float'
     return True, ''
+
+
+def _callees(prog, fn, depth=0, seen=None):
+    seen = seen if seen is not None else set()
+    out = []
+    for c in walk(fn.body):
+        if c.get('k') == 'call' and c.get('inrepo') and c.get('q'):
+            for g in prog.by_q.get(c['q'], []):
+                if (g.q, g.sig) not in seen and depth < 4:
+                    seen.add((g.q, g.sig))
+                    out.append(g)
+                    out += _callees(prog, g, depth + 1, seen)
+    return out
 
 
 def load_exceptions():
@@ -202,7 +223,7 @@ def run(ctx, prog, only_grad=False):
             if not fns:
                 ctx.ob('C15.R1', '%s|%s|%s' % (name, sig, sc), False, m['l'], 'base slot %s %s has no body' % (name, sig))
                 continue
-            ok, why = stub_shape(fns[0])
+            ok, why = stub_shape(fns[0], prog, scalar)
             stub_ok[(name, sig)] = ok
             ctx.ob('C15.R1', '%s|%s|%s' % (name, sig, sc), ok, fns[0].where, 'stub %s(%s): %s' % (name, sig, why),
                    sample='%s %s: prints marker, returns -1.33' % (name, sig))
